@@ -4,6 +4,7 @@ package main
 // Every verdict is computed from the source currently in -repo; nothing in the repository is executed.
 
 import (
+	"path/filepath"
 	"encoding/json"
 	"time"
 	"flag"
@@ -46,6 +47,8 @@ func main() {
 	replay := flag.String("replay", "", "violations file to replay (re-runs the property and prints the listed constructs)")
 	selftest := flag.Bool("selftest", false, "run only the rule-sensitivity self-test of the property")
 	list := flag.Bool("list", false, "list properties")
+	writeBase := flag.Bool("write-function-table", false, "record the functions of the current tree as the reviewed decomposition (tables/functions.json)")
+	normDump := flag.Bool("norm-dump", false, "print the files rewritten by the helper-inlining normalisation and exit")
 	inventory := flag.Bool("inventory", false, "print the whole-program reachability inventory as JSON (thorough tier helper)")
 	flag.BoolVar(&verbose, "v", false, "print every obligation")
 	ov := overlayFlag{}
@@ -55,6 +58,38 @@ func main() {
 	if *inventory {
 		b, _ := json.Marshal(runInventory(*repo))
 		fmt.Println(string(b))
+		return
+	}
+	if *writeBase {
+		w, err := loadWorld(*repo, nil, false)
+		if err != nil {
+			fmt.Println(err)
+			os.Exit(2)
+		}
+		if err := writeFuncBaseline(w, *verif); err != nil {
+			fmt.Println(err)
+			os.Exit(2)
+		}
+		fmt.Printf("%d functions recorded\n", len(w.funcEntries()))
+		return
+	}
+	if *normDump {
+		ovl := map[string][]byte{}
+		for k, v := range ov {
+			b, _ := os.ReadFile(v)
+			ovl[k] = b
+		}
+		w, err := loadWorld(*repo, ovl, false)
+		if err != nil {
+			fmt.Println(err)
+			os.Exit(2)
+		}
+		nw, lg := normalizeWorld(w, *verif)
+		b, _ := json.MarshalIndent(lg, "", "  ")
+		fmt.Println(string(b))
+		for _, f := range lg.FilesDiff {
+			fmt.Printf("==== %s\n%s\n", f, nw.overlay[filepath.Join(*repo, f)])
+		}
 		return
 	}
 	if *list {
@@ -112,7 +147,12 @@ func main() {
 			code = 2
 			return
 		}
+		w, nlog := normalizeWorld(w, *verif)
 		c := newCtx(*prop, *tier, w)
+		c.Extra["normalisation"] = nlog
+		if nlog.Error != "" {
+			fmt.Printf("note: helper-inlining normalisation not applied: %s\n", nlog.Error)
+		}
 		c.start = t0
 		c.ovFiles = ov
 		pc.run(c)
